@@ -85,8 +85,8 @@ theorem post_eq (n fl : Nat) :
 def ctxOf (maxGas : Option Int) (consumed : Nat) (height : Int) : types_Context :=
   { (default : types_Context) with BlockGasMeter_GasConsumedToLimit := gasUsedOf maxGas consumed, BlockHeight := height, ConsensusParams_Block_MaxGas := maxGas.getD 0, ConsensusParams_Block_isNil := maxGas.isNone }
 
-def keeperOf (b minRaw : Nat) (isLondon : Int → Bool) : keeper_Keeper :=
-  { (default : keeper_Keeper) with GetParams_BaseFee := b, GetParams_MinGasPrice := minRaw, evmKeeper_GetChainConfig_IsLondon := isLondon }
+def keeperOf (b minRaw : Nat) (isLondon : Int → Bool) : feemarket_keeper_Keeper :=
+  { (default : feemarket_keeper_Keeper) with GetParams_BaseFee := b, GetParams_MinGasPrice := minRaw, evmKeeper_GetChainConfig_IsLondon := isLondon }
 
 theorem gasLimitOf_lt (maxGas : Option Int) : gasLimitOf maxGas < 2^64 := by
   unfold gasLimitOf maxUint64
